@@ -238,19 +238,26 @@ func encState(s LoopState) (bool, int64, []string, string) {
 
 // TraceEvents renders the call as trace lines (call, tok*, ret).
 func (c *CallRec) TraceEvents(id int, entry string, errored bool) []Ev {
+	return c.TraceEventsIO(id, entry, errored, false)
+}
+
+// TraceEventsIO: rerr = the source reader was scripted to fail.
+func (c *CallRec) TraceEventsIO(id int, entry string, errored, rerr bool) []Ev {
 	evs := []Ev{{"ev": "call", "c": id, "pid": c.Pid, "entry": entry}}
 	for _, t := range c.Toks {
 		sk, cnt, stack, mrst := encState(t.Pre)
 		ws := []Tok{}
+		werr := false
 		for _, w := range t.Writes {
 			ws = append(ws, EncTok(w.Tok))
+			werr = w.Err
 		}
 		after := EncAttrs(t.After)
 		evs = append(evs, Ev{"ev": "tok", "c": id, "tok": EncTok(t.Tok), "skip": sk, "cnt": cnt, "stack": stack,
-			"mrst": mrst, "called": t.Called, "after": after, "writes": ws})
+			"mrst": mrst, "called": t.Called, "after": after, "writes": ws, "werr": werr})
 	}
 	sk, cnt, stack, mrst := encState(c.Final)
-	evs = append(evs, Ev{"ev": "ret", "c": id, "err": errored, "skip": sk, "cnt": cnt, "stack": stack, "mrst": mrst,
+	evs = append(evs, Ev{"ev": "ret", "c": id, "err": errored, "rerr": rerr, "skip": sk, "cnt": cnt, "stack": stack, "mrst": mrst,
 		"panic": c.Panic != "", "ended": c.Ended})
 	return evs
 }
